@@ -6,7 +6,7 @@ from .. import common, engine_hist, refgraph
 from . import c09
 
 PROP = 'C14'
-PLANS = {'quick': [('GOPS', 'all', 3, 1), ('GOPS2', 'all', 2, 1)],
+PLANS = {'quick': [('GOPS', 'all', 3, 1), ('GOPS2', 'all', 2, 1), ('GOPS', 'all', 1, 1, 'plain', 'busy'), ('GOPS', 'all', 1, 1, 'plain', 'reloaded')],
          'thorough': [('GOPS', 'all', 4, 1), ('GOPS2', 'all', 4, 1), ('GOPS', 'all', 3, 2)]}
 EDITS = ['edit_tags', 'edit_extras', 'edit_ttc', 'edit_children', 'edit_flags']
 
@@ -89,7 +89,7 @@ def apply_edit(g, kind):
 
 def check_state(system, hist, stats):
     viols = []
-    case = {'system': repr((system.which, system.alpha)), 'history': [list(h) for h in hist]}
+    case = {'system': repr((system.which, system.alpha, system.cfg.get('names', 'plain'), system.cfg.get('start'))), 'history': [list(h) for h in hist]}
 
     def V(key, what, **kw):
         viols.append(common.Violation(key, what, case=dict(case, **kw.pop('extra', {})), **kw).to_json())
@@ -173,13 +173,15 @@ def run(tier, seed):
                 'and (separately) to the original with the other side compared before/after')
     scratch = common.Result(PROP, tier, seed, 'model_checking')
     total_states = 0
-    for lang, alpha, depth, K in PLANS[tier]:
-        reps = engine_hist.explore(c09.make_system, (lang, alpha), depth, K, scratch, seed, shard=16,
-                                   label=f'[{lang},{alpha},D{depth},K{K}]')
+    for plan in PLANS[tier]:
+        lang, alpha, depth, K = plan[:4]
+        sysarg = (lang, alpha) + tuple(plan[4:])
+        reps = engine_hist.explore(c09.make_system, sysarg, depth, K, scratch, seed, shard=16,
+                                   label=f'[{",".join(map(str, sysarg))},D{depth},K{K}]')
         hists = [reps[k][0] for k in sorted(reps)]
         total_states += len(hists)
         hists = common.rotate(hists, seed)
-        jobs = [((lang, alpha), hists[i:i + 8]) for i in range(0, len(hists), 8)]
+        jobs = [(sysarg, hists[i:i + 8]) for i in range(0, len(hists), 8)]
         for stats, viols in common.pmap(_job, jobs):
             res.merge_counts(stats)
             res.add_violations(viols)
